@@ -11,7 +11,8 @@ CONSTANTS MaxPts,      \* total number of point arguments (a component counts as
           MaxOff,      \* off-curve points per segment
           MaxCalls,    \* length of the call sequence
           Lattice,     \* "L4" | "L5" | "L9": which point lattice
-          Protos       \* subset of {"seg", "pt"}
+          Protos,      \* subset of {"seg", "pt"}
+          SampleMod    \* print every outline (1) or a deterministic 1/SampleMod sample of them (simulation)
 
 VARIABLES proto, calls, st, np
 vars == <<proto, calls, st, np>>
@@ -63,7 +64,12 @@ PtNext == proto = "pt" /\ (PBegin \/ PMoveA \/ (TrailOff(calls, Len(calls)) < Ma
 
 Init == proto \in Protos /\ calls = <<>> /\ st = "idle" /\ np = 0
 Next == (SegNext \/ PtNext) /\ UNCHANGED proto
-Emit == (st = "idle" /\ calls # <<>>) => PrintT(<<"GEN", ToJson(calls)>>)
+RECURSIVE HashCall(_, _, _)
+HashCall(c, j, acc) == IF j > Len(c) THEN acc ELSE HashCall(c, j + 1, (acc * 31 + c[j] + 7) % 65521)
+RECURSIVE Hash(_, _, _)
+Hash(cs, i, acc) == IF i > Len(cs) THEN acc ELSE Hash(cs, i + 1, HashCall(cs[i], 1, (acc * 17 + 3) % 65521))
+Emit == (st = "idle" /\ calls # <<>> /\ (SampleMod = 1 \/ Hash(calls, 1, 0) % SampleMod = 0))
+          => PrintT(<<"GEN", ToJson(calls)>>)
 
 (* ---- laws, checked on every complete outline ---- *)
 Done == st = "idle"
